@@ -483,8 +483,15 @@ func (e *Executor) LoadDependencyOutputs(
 
 		targetResult, err := e.targetCache.Load(ctx, localDep.ChangeHash)
 		if err != nil {
-			// We cannot even get the target cache: re-run immediately
-			return rerunDependency()
+			// We cannot even get the target cache: re-run the dependency (which in turn
+			// needs the outputs of its own dependencies) and carry on with the remaining ones
+			if recursiveLoadErr := e.LoadDependencyOutputs(ctx, localDep, update); recursiveLoadErr != nil {
+				return recursiveLoadErr
+			}
+			if rerunError := rerunDependency(); rerunError != nil {
+				return rerunError
+			}
+			continue
 		}
 
 		progress := worker.NewProgressTracker(
